@@ -175,7 +175,31 @@ def empty_filter():
             "non_passed": False, "disabled": False, "enabled": False, "grep": None, "from_report": False}
 
 
-def gen_filter(rng, suites, report_mode):
+def report_texts(report):
+    out = []
+    for chain, n, is_test in walk(report["suites"]):
+        if is_test:
+            for st in n["steps"]:
+                out.append(st["desc"])
+                for l in st["logs"]:
+                    out += [x for x in l[1:] if isinstance(x, str)]
+    return out
+
+
+def gen_grep(rng, report):
+    """mostly a digit (or two characters) taken from a text really present in the report, so that each text source decides"""
+    texts = [t for t in report_texts(report) if any(ch.isdigit() for ch in t)] if report else []
+    if texts and rng.random() < 0.75:
+        t = rng.choice(texts)
+        idx = [i for i, ch in enumerate(t) if ch.isdigit()]
+        i = rng.choice(idx)
+        g = t[i:i + rng.choice([1, 1, 2])]
+        if all(ch.isdigit() or ch in "_ " for ch in g) and not g.startswith(" "):
+            return g
+    return rng.choice(GREPS + [""])
+
+
+def gen_filter(rng, suites, report_mode, report=None):
     v = vocab(suites)
     f = empty_filter()
     kinds = ["path", "desc", "tag", "property", "link"]
@@ -200,8 +224,8 @@ def gen_filter(rng, suites, report_mode):
     if report_mode:
         for k in ("passed", "failed", "skipped", "non_passed"):
             f[k] = rng.random() < 0.3
-        if rng.random() < 0.3:
-            f["grep"] = rng.choice(GREPS + [""])
+        if rng.random() < 0.4:
+            f["grep"] = gen_grep(rng, report)
         f["from_report"] = rng.random() < 0.6 or not (f["passed"] or f["failed"] or f["skipped"] or f["non_passed"] or f["grep"])
     return f
 
